@@ -21,8 +21,11 @@ func (cs *safe) GetAsString(name string, fallback string) StringOption {
 		lock.Lock()
 		defer lock.Unlock()
 		if !valid.IsSet() {
+			verifEvent("getter:stale", name)
 			valid = getValidityFlag()
+			verifEvent("getter:flag", name, valid)
 			option, valueCache = getValueCache(name, option, OptTypeString)
+			verifEvent("getter:value", name)
 			if valueCache != nil {
 				value = valueCache.stringVal
 			} else {
@@ -47,8 +50,11 @@ func (cs *safe) GetAsStringArray(name string, fallback []string) StringArrayOpti
 		lock.Lock()
 		defer lock.Unlock()
 		if !valid.IsSet() {
+			verifEvent("getter:stale", name)
 			valid = getValidityFlag()
+			verifEvent("getter:flag", name, valid)
 			option, valueCache = getValueCache(name, option, OptTypeStringArray)
+			verifEvent("getter:value", name)
 			if valueCache != nil {
 				value = valueCache.stringArrayVal
 			} else {
@@ -73,8 +79,11 @@ func (cs *safe) GetAsInt(name string, fallback int64) IntOption {
 		lock.Lock()
 		defer lock.Unlock()
 		if !valid.IsSet() {
+			verifEvent("getter:stale", name)
 			valid = getValidityFlag()
+			verifEvent("getter:flag", name, valid)
 			option, valueCache = getValueCache(name, option, OptTypeInt)
+			verifEvent("getter:value", name)
 			if valueCache != nil {
 				value = valueCache.intVal
 			} else {
@@ -99,8 +108,11 @@ func (cs *safe) GetAsBool(name string, fallback bool) BoolOption {
 		lock.Lock()
 		defer lock.Unlock()
 		if !valid.IsSet() {
+			verifEvent("getter:stale", name)
 			valid = getValidityFlag()
+			verifEvent("getter:flag", name, valid)
 			option, valueCache = getValueCache(name, option, OptTypeBool)
+			verifEvent("getter:value", name)
 			if valueCache != nil {
 				value = valueCache.boolVal
 			} else {
